@@ -246,6 +246,17 @@ type apiRA struct {
 	Lifetime int64  `json:"router_lifetime_seconds"`
 	Reach    int64  `json:"reachable_time_milliseconds"`
 	Retrans  int64  `json:"retransmit_timer_milliseconds"`
+	Options  struct {
+		Prefixes []struct {
+			Prefix    string `json:"prefix"`
+			Valid     int64  `json:"valid_lifetime_seconds"`
+			Preferred int64  `json:"preferred_lifetime_seconds"`
+		} `json:"prefixes"`
+		Routes []struct {
+			Prefix   string `json:"prefix"`
+			Lifetime int64  `json:"route_lifetime_seconds"`
+		} `json:"routes"`
+	} `json:"options"`
 }
 
 func c17Oracle(info *runInfo, res *verifsim.Result) {
@@ -434,6 +445,7 @@ func c17Oracle(info *runInfo, res *verifsim.Result) {
 		}
 		anyUninit := false
 		models := map[string]*modelOut{}
+		uninit := map[string]*modelOut{}
 		for _, is := range cfg.Interfaces {
 			if !is.Advertise {
 				continue
@@ -443,6 +455,20 @@ func c17Oracle(info *runInfo, res *verifsim.Result) {
 				if g == nil {
 					anyUninit = true
 					res.Probe("request_before_first_dial")
+					// no connection had been made by the time the request was
+					// answered: an error is fine, and an answer has to be the RA
+					// that can be known without the interface (no MAC, no
+					// wildcard expansion, deprecated lifetimes as of now)
+					never := true
+					for _, x := range h.gens {
+						if x.ifn == ifn && x.dialSeq < r.exit.Seq {
+							never = false
+						}
+					}
+					if fwd, ok := fwdRead[ifn]; ok && never {
+						s := is
+						uninit[ifn] = expectRA(modelIn{spec: &s, fwd: fwd, uninit: true, epoch: info.epochs[0], t1: r.enter.T, t2: r.exit.T})
+					}
 					continue
 				}
 				if g.endSeq != 0 && g.endSeq < r.enter.Seq {
@@ -477,6 +503,14 @@ func c17Oracle(info *runInfo, res *verifsim.Result) {
 			continue
 		}
 		judged++
+		for ifn, m := range uninit {
+			if m.fail != "" {
+				res.Violate("C17.mirror", "answered-uninitialised", "GET %s at %s answered %d although %s has never been initialised and its RA cannot be generated: %s", path, ms(r.act.T), status, ifn, m.fail)
+			} else if len(m.unrep) == 0 {
+				models[ifn] = m
+				res.Probe("uninitialised_interface_judged")
+			}
+		}
 		if path == "/metrics" {
 			got := map[string]float64{}
 			advertising := map[string]bool{}
@@ -577,6 +611,49 @@ func c17Oracle(info *runInfo, res *verifsim.Result) {
 			hdr := fmt.Sprintf("hop=%d M=%t O=%t pref=%s reach=%dms retrans=%dms home=false proxy=false", ra.Hop, ra.M, ra.O, ra.Pref, ra.Reach, ra.Retrans)
 			if hdr != m.hdr || ra.Lifetime != m.lifetime {
 				res.Violate("C17.mirror", "json-header", "API at %s: %s header %q lifetime %d, want %q lifetime %d", ms(r.act.T), bi.Interface, hdr, ra.Lifetime, m.hdr, m.lifetime)
+			}
+			// prefix and route options: the same set, each with its lifetimes
+			{
+				want := map[string]eopt{}
+				dup := false
+				for _, o := range m.opts {
+					if o.kind == "prefix" || o.kind == "route" {
+						k := o.kind + " " + o.pfx.String()
+						if _, ok := want[k]; ok {
+							dup = true
+						}
+						want[k] = o
+					}
+				}
+				type jl struct {
+					key string
+					lt  []int64
+				}
+				var got []jl
+				for _, x := range ra.Options.Prefixes {
+					got = append(got, jl{"prefix " + x.Prefix, []int64{x.Valid, x.Preferred}})
+				}
+				for _, x := range ra.Options.Routes {
+					got = append(got, jl{"route " + x.Prefix, []int64{x.Lifetime}})
+				}
+				if !dup {
+					if len(got) != len(want) {
+						res.Violate("C17.mirror", "json-option-count", "API at %s: %s renders %d prefix/route options, the RA of that moment has %d", ms(r.act.T), bi.Interface, len(got), len(want))
+					}
+					for _, g := range got {
+						o, ok := want[g.key]
+						if !ok {
+							res.Violate("C17.mirror", "json-option-extra", "API at %s: %s renders %s, which the RA of that moment does not carry", ms(r.act.T), bi.Interface, g.key)
+							continue
+						}
+						for i := range g.lt {
+							if g.lt[i] < o.lo[i] || g.lt[i] > o.hi[i] {
+								res.Violate("C17.mirror", "json-lifetime:"+o.kind, "API at %s: %s renders %s with lifetimes %v, want %v..%v", ms(r.act.T), bi.Interface, g.key, g.lt, o.lo, o.hi)
+								break
+							}
+						}
+					}
+				}
 			}
 			txt := string(bi.Advertisement)
 			for _, o := range m.opts {
